@@ -72,33 +72,15 @@ theorem C03M_boolMinimal_refuted (v : Bytes) : ∃ e, boolFromScriptBytes v true
 
 /-! ## decoder -/
 
-/-- C03.getOp_refines, proved outside the excluded operand classes (`NotExcluded`: a PUSHDATA length field cut short
-by the end of the script; PUSHDATA2 of exactly 256 bytes and PUSHDATA4 of exactly 65536 bytes under MINIMALDATA):
-for every script, every `pc` inside it and both settings of `verify_minimal_data`, `get_opcode` returns what
-`GetScriptOp` + `CheckMinimalPush` return (truncation ⇒ `is_ok = False`, whence BAD_OPCODE even in dead branches). -/
-theorem C03M_getOp_refines_partial (script : Bytes) (pc : Nat) (vm : Bool) (hpc : pc < script.length)
-    (hex : NotExcluded (script.drop pc)) : GetOpRefines script pc vm := getOp_refines script pc vm hpc hex
+/-- C03.getOp_refines: for every script, every `pc` inside it and both settings of `verify_minimal_data`, `get_opcode`
+returns what `GetScriptOp` + `CheckMinimalPush` return (truncation ⇒ `is_ok = False`, whence BAD_OPCODE even in dead
+branches; MINIMALDATA exactly when `CheckMinimalPush` fails; `OP_1NEGATE`/`OP_1..16` carry `CScriptNum(n).serialize()`).
+Full since the repairs `fix: … length field is cut short` (bc1455a) and `fix: minimal-push check …` (fc90d57): before
+them the statement was refuted by `4c` at the end of a script and by the 256-byte PUSHDATA2 (§8 row 29). -/
+theorem C03M_getOp_refines (script : Bytes) (pc : Nat) (vm : Bool) (hpc : pc < script.length) :
+    GetOpRefines script pc vm := getOp_refines script pc vm hpc
 
-example : NotExcluded [0x4d, 0x02, 0x00, 7, 8] := by simp [NotExcluded, leNat]
-
-/-- the exclusion is needed (1): `4c` at the end of a script is decoded as a successful push of the empty string
-(Core: `GetScriptOp` fails, BAD_OPCODE) -/
-theorem C03M_getOp_truncated_length_refuted :
-    ¬ ∀ script pc vm, pc < script.length → GetOpRefines script pc vm := by
-  intro h
-  have h1 := h [0x4c] 0 false (by decide)
-  have hs : getScriptOp (List.drop 0 [0x4c]) = none := by decide
-  simp only [GetOpRefines, hs] at h1
-  obtain ⟨f, hf, hok, _⟩ := h1
-  have hm : getOpcode [0x4c] 0 false = .ok ⟨76, some [], 1, true⟩ := by decide +kernel
-  rw [hm] at hf
-  cases hf
-  cases hok
-
-/-- the exclusion is needed (2), §8 row 29: the canonical PUSHDATA2 of 256 bytes is refused under MINIMALDATA -/
-theorem C03M_getOp_minimal256_refuted :
-    getOpcode ([0x4d, 0x00, 0x01] ++ List.replicate 256 0x42) 0 true = .error nonMinimal ∧
-    checkMinimalPush (List.replicate 256 0x42) 0x4d = true := by
-  constructor <;> decide +kernel
+#guard (getOpcode [0x4c] 0 false).toOption.map (·.isOk) = some false
+#guard (getOpcode ([0x4d, 0x00, 0x01] ++ List.replicate 256 0x42) 0 true).toOption.map (·.isOk) = some true
 
 end Pycoin.VM
